@@ -511,11 +511,17 @@ class TypesOracle(walkers.DagWalker):
         return expanded
 
     @walkers.handles(set(op.ALL_TYPES) - \
-                     set([op.SYMBOL, op.FUNCTION]) -\
+                     set([op.SYMBOL, op.FUNCTION, op.ARRAY_VALUE]) -\
                      op.QUANTIFIERS - op.CONSTANTS)
     def walk_combine(self, formula: FNode, args: List[FrozenSet[PySMTType]], **kwargs) -> FrozenSet[PySMTType]:
         #pylint: disable=unused-argument
         return frozenset(chain(*args))
+
+    @walkers.handles(op.ARRAY_VALUE)
+    def walk_array_value(self, formula: FNode, args: List[FrozenSet[PySMTType]], **kwargs) -> FrozenSet[PySMTType]:
+        # The sort of the literal itself: its index sort might not be
+        # the sort of any of the children
+        return frozenset(chain([self.env.stc.get_type(formula)], *args))
 
     @walkers.handles(op.SYMBOL)
     def walk_symbol(self, formula: FNode, **kwargs) -> FrozenSet[PySMTType]:
